@@ -13,7 +13,7 @@ PROPS = {
     "C01": dict(runs=[("dt", 1600, 30000), ("bulk", 12000, 60000)], lean_module="Spade.Properties.C01"),
     "C02": dict(runs=[("dt", 1200, 20000), ("cdt", 1000, 20000), ("small", 1000, 20000), ("bulk", 400, 6000), ("refine", 800, 4000), ("splithull", 800, 8000)], lean_module="Spade.Properties.C02"),
     "C03": dict(runs=[("cdt", 1600, 30000), ("split", 600, 8000), ("refine", 240, 2000)], lean_module="Spade.Properties.C03"),
-    "C04": dict(runs=[("cdt", 2000, 40000), ("bulk", 400, 6000)], lean_module="Spade.Properties.C04"),
+    "C04": dict(runs=[("cdt", 2000, 40000), ("bulk", 400, 6000), ("conheavy", 200, 6000)], lean_module="Spade.Properties.C04"),
     "C05": dict(runs=[("dt", 1600, 30000), ("cdt", 1000, 15000), ("small", 800, 15000)], lean_module="Spade.Properties.C05"),
     "C06": dict(runs=[("pred", 40000, 2000000), ("locate", 400, 4000), ("quad", 6000, 60000)], lean_module="Spade.Properties.C06"),
     "C07": dict(runs=[("term", 1200, 20000), ("small", 1200, 20000), ("dt", 600, 8000), ("cdt", 600, 8000), ("split", 320, 5000), ("refine", 240, 3000)], lean_module="Spade.Properties.C07"),
@@ -21,7 +21,7 @@ PROPS = {
     "C09": dict(runs=[("locate", 2000, 40000), ("cdt", 600, 8000), ("dt", 1200, 20000), ("small", 800, 15000)], lean_module="Spade.Properties.C09"),
     "C10": dict(runs=[("bulk", 12000, 60000)], lean_module="Spade.Properties.C10"),
     "C11": dict(runs=[("dt", 1600, 30000), ("cdt", 2800, 30000), ("small", 1200, 20000)], lean_module="Spade.Properties.C11"),
-    "C12": dict(runs=[("cdt", 1600, 30000), ("conq", 1000, 15000)], lean_module="Spade.Properties.C12"),
+    "C12": dict(runs=[("cdt", 1600, 30000), ("conq", 1000, 15000), ("conheavy", 200, 6000)], lean_module="Spade.Properties.C12"),
     "C13": dict(runs=[("split", 2000, 40000)], lean_module="Spade.Properties.C13"),
     "C14": dict(runs=[("hull", 1200, 20000), ("small", 1600, 30000), ("dt", 800, 10000), ("bulk", 12000, 60000)], lean_module="Spade.Properties.C14"),
     "C15": dict(runs=[("nn", 2000, 40000)], lean_module="Spade.Properties.C15"),
